@@ -193,4 +193,12 @@ def stack_soup(rng, n):
             imm = imm_for(rng, shape, tb)
             base = key.rstrip(" ")
             out.append(base if imm == "" else base + " " + imm)
+    if rng.random() < 0.3:
+        # the block ends in a multi-way branch whose label list may name one label several times (match pops one value per
+        # LISTED label plus the value compared; switch pops one)
+        labs = [rng.choice(["la", "lb", "lc"]) for _ in range(rng.randrange(1, 5))]
+        out.append(rng.choice(["match ", "switch "]) + " ".join(labs))
+        out += ["int 1", "return"]
+        for l in sorted(set(labs)):
+            out += [l + ":", "int 1", "return"]
     return "\n".join(out)
